@@ -944,6 +944,25 @@ func (self *Analyzer) callArgs(fnType ast.FunctionType, args pAst.CallArgs, base
 	}
 }
 
+// Reports whether the base of a call names a function of the program:
+// a function of the current module or a function that is imported from another Homescript module.
+// Everything else (local variables, parameters, globals, builtins and values of the host) is a function value.
+func (self *Analyzer) isProgramFunction(base ast.AnalyzedExpression) bool {
+	if base.Kind() != ast.IdentExpressionKind {
+		return false
+	}
+
+	ident := base.(ast.AnalyzedIdentExpression).Ident.Ident()
+
+	// a variable takes precedence over a function of the same name (like in `identExpression`)
+	if variable, _, found := self.currentModule.getVar(ident); found {
+		return variable.IsImportedFunction
+	}
+
+	_, found := self.currentModule.getFunc(ident)
+	return found
+}
+
 // TODO: also forbid invoking a spawn fn which returns a closure.
 // TODO: also completely rewrite this function, it is very obfuscated.
 func (self *Analyzer) callExpression(node pAst.CallExpression) ast.AnalyzedCallExpression {
@@ -967,6 +986,15 @@ func (self *Analyzer) callExpression(node pAst.CallExpression) ast.AnalyzedCallE
 
 		arguments = self.callArgs(baseFn, node.Arguments, node.IsSpawn)
 
+		// a new thread can only be started on a function of the program, not on a function value
+		if node.IsSpawn && !self.isProgramFunction(base) {
+			self.error(
+				fmt.Sprintf("Cannot spawn '%s': this is a function value, only a function of the program can be spawned", base),
+				[]string{"A function of the program is either defined in this module (`fn name(...) { ... }`) or imported from another Homescript module"},
+				base.Span(),
+			)
+		}
+
 		// lookup the result type of the function
 		thisExpressionResultsIn = baseFn.ReturnType
 	default:
@@ -982,24 +1010,11 @@ func (self *Analyzer) callExpression(node pAst.CallExpression) ast.AnalyzedCallE
 		)
 	}
 
-	// If this is a thread spawn, create a thread handle as the result
+	// TODO: If this is a thread spawn, create a thread handle as the result
 	// TODO: migrate this to the `core-lib` and reference the type from here
+	// Until thread handles exist, a spawn does not result in a value
 	if node.IsSpawn {
-		// the base could not be called (unknown identifier, not a function): there is no result type
-		if thisExpressionResultsIn == nil {
-			thisExpressionResultsIn = ast.NewUnknownType()
-		}
-
-		thisExpressionResultsIn = ast.NewObjectType([]ast.ObjectTypeField{
-			ast.NewObjectTypeField(
-				pAst.NewSpannedIdent("join", node.Span()), ast.NewFunctionType(
-					ast.NewNormalFunctionTypeParamKind(make([]ast.FunctionTypeParam, 0)),
-					node.Span(),
-					thisExpressionResultsIn.SetSpan(node.Range),
-					node.Span(),
-				), node.Span(),
-			),
-		}, node.Span())
+		thisExpressionResultsIn = ast.NewNullType(node.Span())
 	}
 
 	// TODO: this is just a hack
